@@ -445,9 +445,18 @@ impl Check for C08 {
                     ),
                 }
                 // the shipped command line on the same expression
-                if sc.cli && pi == 0 {
-                    let argv = sv(&["primitive", "eval", "--date", "2024-06-01", "-f", &root, "--", &text]);
+                // (as the value-expr the library takes, without its outer parentheses - the command
+                // supplies them -, and with a redundant pair around every operand)
+                let mut forms = vec![text.clone()];
+                for f in [sc.expr.render_bare(), sc.expr.render_loose()] {
+                    if !forms.contains(&f) {
+                        forms.push(f);
+                    }
+                }
+                for text in forms.iter().filter(|_| sc.cli && pi == 0) {
+                    let argv = sv(&["primitive", "eval", "--date", "2024-06-01", "-f", &root, "--", text]);
                     let obs = observe(&files, &no_faults, p, today, &argv, out);
+                    out.count("probe.cli-eval-forms");
                     match (&got, obs.ok) {
                         (Ok(a), true) => match crate::checks::book::parse_inline_amount(obs.stdout_str().trim_end()) {
                             Some(c) => {
